@@ -1,3 +1,5 @@
 pub mod queue;
 pub mod uow;
 pub mod agg;
+pub mod global;
+pub mod bridge;
